@@ -11,6 +11,8 @@ def run(ctx):
     if quick:
         # one source feeding several destinations, with a migration limit above 1
         jobs.append({'from': 1, 'to': 3, 'shape': [0, 1], 'limits': (0, 2), 'failover': None, 'recommit': False})
+        # a removed master that keeps no stable slots and feeds four destinations, most of them postponed by the limit
+        jobs.append({'from': 3, 'to': 2, 'shape': [0, 1, 2, 3, 4, 5], 'limits': (0, 1), 'failover': None, 'recommit': False})
     limits = (0, 1) if quick else (0, 1, 2)
     ctx.bounds = {'slot_num': SLOT_NUM, 'resize_pairs': sorted(set((j['from'], j['to']) for j in jobs)),
                   'max_tiles_per_half': 2 if quick else 3, 'migration_limits': list(limits) + ([2] if quick else []), 'jobs': len(jobs),
